@@ -83,7 +83,7 @@ func replayC05(c *Ctx, rule string, raw json.RawMessage) {
 			Name string `json:"name"`
 		}
 		json.Unmarshal(raw, &bc)
-		for _, b := range bigStrings(c.U, gen.NewRand(c.Seed, 0xC05B)) {
+		for _, b := range bigStringsTier(c.U, gen.NewRand(c.Seed, 0xC05B), c.Thorough()) {
 			if b.Name == bc.Name && c.Valid(b.S) != b.Valid {
 				c.Violation("big:"+b.Name, "C05.big", bc, "large input %q is valid=%v by construction but the library disagrees", b.Name, b.Valid)
 			}
@@ -156,7 +156,7 @@ func runC05(c *Ctx, phase string) {
 	}
 	// large inputs (valid by construction, or corrupted at one place): sizes beyond any plausible buffer / batch threshold
 	{
-		for bi, b := range bigStrings(u, gen.NewRand(c.Seed, 0xC05B)) {
+		for bi, b := range bigStringsTier(u, gen.NewRand(c.Seed, 0xC05B), c.Thorough()) {
 			if !c.Mine(bi) {
 				continue
 			}
